@@ -23,7 +23,7 @@ from pyvc.models import model
 # --------------------------------------------------------------------------- world constants
 W = SimpleNamespace(
     SM=z3.Int("SM"), ENG=z3.Int("ENG"), REG=z3.Int("REG"), MODEL=z3.Int("MODEL"), Q=z3.Int("Q"),
-    LK=z3.Int("LK"), SENT=z3.Int("SENT"), SMAP=z3.Int("SMAP"), REGD=z3.Int("REGD"),
+    LK=z3.Int("LK"), SENT=z3.Int("SENT"), SMAP=z3.Int("SMAP"), REGD=z3.Int("REGD"), CACHE=z3.Int("CACHE"),
 )
 
 INITIAL_ID = z3.StringVal("__initial__")
@@ -41,6 +41,7 @@ declare_ghost("g_ok", A_IB)  # result of `all`
 declare_ghost("g_res", z3.ArraySort(Int, A_II))  # result list of `call` (content snapshot)
 declare_ghost("g_reslen", A_II)
 declare_ghost("st", z3.ArraySort(Int, A_II))  # st[td][t]: 0 untouched, 1 rejected, 2 executed, 3 raised
+declare_ghost("ac", z3.ArraySort(Int, A_II))  # ac[td][t]: how many times _activate(td, t) was entered
 declare_ghost("depth", Int)
 
 GK_CALL, GK_ALL = 1, 2
@@ -301,7 +302,7 @@ def wf_world(s):
     """Well-formedness of the single-machine world in heap view `s` (an invariant of construction:
     established by StateMachine.__init__ / BaseEngine.__init__, never written afterwards)."""
     al = s["ghost.alloc"]
-    objs = [W.SM, W.ENG, W.REG, W.MODEL, W.Q, W.LK, W.SENT, W.SMAP, W.REGD]
+    objs = [W.SM, W.ENG, W.REG, W.MODEL, W.Q, W.LK, W.SENT, W.SMAP, W.REGD, W.CACHE]
     return {
         "wf:world-objects-allocated": z3.And(*[z3.And(o >= FIRST_ADDR, o < al) for o in objs]),
         "wf:world-objects-distinct": z3.Distinct(*objs),
@@ -314,6 +315,7 @@ def wf_world(s):
         "wf:engine.lock": s.sel("Engine._processing", W.ENG) == W.LK,
         "wf:engine.sentinel": s.sel("Engine._sentinel", W.ENG) == W.SENT,
         "wf:registry.dict": s.sel("CallbacksRegistry._registry", W.REG) == W.REGD,
+        "wf:sm.state-cache": s.sel("StateMachine._states_for_instance", W.SM) == W.CACHE,
         "wf:queue-cursors": z3.And(0 <= s.sel("deque.head", W.Q), s.sel("deque.head", W.Q) <= s.sel("deque.tail", W.Q)),
         "wf:log-cursors": z3.And(s.g("ntrig") >= 0, s.g("ng") >= 0),
     }
@@ -354,11 +356,25 @@ def others_kept(key, s0, s, ref):
     return z3.ForAll([o], z3.Implies(o != ref, z3.Select(s[key], o) == z3.Select(s0[key], o)))
 
 
+def queue_items_valid(s):
+    k = z3.Const("k!qv", Int)
+    td = z3.Select(qarr(s), k)
+    return z3.ForAll([k], z3.Implies(
+        z3.And(k >= qh(s), k < qt(s)),
+        z3.And(td >= FIRST_ADDR, td < s["ghost.alloc"],
+               s.sel("TriggerData.machine", td) == W.SM,
+               s.sel("TriggerData.model", td) == W.MODEL,
+               s.sel("TriggerData.event", td) >= FIRST_ADDR,
+               s.sel("TriggerData.event", td) < s["ghost.alloc"])))
+
+
+
 ENV_MODIFIES = [
     "deque.arr", "deque.tail", "deque.head", "Model.state",
     "ghost.ntrig", "ghost.trig_log", "ghost.trig_res",
     "ghost.ng", "ghost.g_key", "ghost.g_ms", "ghost.g_ks", "ghost.g_kind", "ghost.g_ok", "ghost.g_res",
-    "ghost.g_reslen", "ghost.st",
+    "ghost.g_reslen", "ghost.st", "ghost.ac",
+    "idict.has", "idict.val", "IState._state+", "IState._machine+",
     "list.arr+", "list.len+", "dict.has+", "dict.val+", "TriggerData.machine+", "TriggerData.event+",
     "TriggerData.model+", "TriggerData.args+", "TriggerData.kwargs+", "Event.id+", "Event.name+",
     "Event._sm+", "Event._has_real_id+", "Event._transitions+",
@@ -381,19 +397,23 @@ def env_effect(s0, s, glog_grows_by=None):
                                         others_kept("deque.head", s0, s, W.Q),
                                         others_kept("deque.tail", s0, s, W.Q)),
         "env:model-others-kept": others_kept("Model.state", s0, s, W.MODEL),
+        "env:state-cache-only": z3.And(others_kept("idict.has", s0, s, W.CACHE), others_kept("idict.val", s0, s, W.CACHE)),
         "env:rtc-append-only": z3.Implies(rl, z3.And(
             qh(s) == qh(s0), qt(s) >= qt(s0), prefix_kept(qarr(s0), qarr(s), qt(s0)))),
         "env:rtc-model-state-kept": z3.Implies(rl, mstate(s) == mstate(s0)),
         "env:rtc-no-trigger": z3.Implies(rl, z3.And(
             s.g("ntrig") == s0.g("ntrig"), s.g("trig_log") == s0.g("trig_log"),
-            s.g("trig_res") == s0.g("trig_res"), s.g("st") == s0.g("st"))),
+            s.g("trig_res") == s0.g("trig_res"), s.g("st") == s0.g("st"), s.g("ac") == s0.g("ac"))),
         "env:nonrtc-balanced": z3.Implies(z3.Not(rtc(s0)), z3.And(
             qt(s) - qh(s) == qt(s0) - qh(s0), qh(s) >= qh(s0), qt(s) >= qt(s0), qh(s) <= qt(s))),
         "env:nonrtc-old-rows-kept": z3.Implies(z3.Not(rtc(s0)), z3.And(
-            z3.ForAll([x], z3.Implies(z3.And(x >= 0, x < al0), z3.Select(s.g("st"), x) == z3.Select(s0.g("st"), x))),
+            z3.ForAll([x], z3.Implies(z3.And(x >= 0, x < al0), z3.And(
+                z3.Select(s.g("st"), x) == z3.Select(s0.g("st"), x),
+                z3.Select(s.g("ac"), x) == z3.Select(s0.g("ac"), x)))),
             s.g("ntrig") >= s0.g("ntrig"),
             prefix_kept(s0.g("trig_log"), s.g("trig_log"), s0.g("ntrig"), "tl"),
         )),
+        "env:queued-items-valid": z3.Implies(queue_items_valid(s0), queue_items_valid(s)),
         "env:glog-prefix-kept": z3.And(
             s.g("ng") >= s0.g("ng"),
             prefix_kept(s0.g("g_key"), s.g("g_key"), s0.g("ng"), "gk"),
@@ -410,3 +430,61 @@ def env_effect(s0, s, glog_grows_by=None):
 
 def kw_state(s, kwargs):
     return z3.Select(s.sel("dict.val", kwargs), z3.StringVal("state"))
+
+
+# --------------------------------------------------------------------------- WF(cls)  (DESIGN 3.3)
+def smap_has(s, v):
+    return z3.Select(s.sel("idict.has", W.SMAP), v)
+
+
+def smap_val(s, v):
+    return z3.Select(s.sel("idict.val", W.SMAP), v)
+
+
+def valid_obj(s, o):
+    return z3.And(o >= FIRST_ADDR, o < s["ghost.alloc"])
+
+
+def grouper_key(s, g):
+    return s.sel("SpecListGrouper.key", g)
+
+
+def wf_transition(s, t):
+    """A transition of the class: valid target whose value is mapped to it; valid groupers."""
+    tgt = s.sel("Transition.target", t)
+    src = s.sel("Transition.source", t)
+    gs = [s.sel("Transition." + g, t) for g in ("validators", "cond", "before", "on", "after")]
+    return z3.And(
+        valid_obj(s, t), valid_obj(s, tgt),
+        smap_has(s, s.sel("State.value", tgt)), smap_val(s, s.sel("State.value", tgt)) == tgt,
+        z3.Or(src == NONE, valid_obj(s, src)),
+        z3.Implies(s.sel("Transition.internal", t), src == tgt),
+        valid_obj(s, s.sel("State.enter", tgt)), valid_obj(s, s.sel("State.exit", tgt)),
+        z3.Implies(src != NONE, z3.And(valid_obj(s, s.sel("State.exit", src)), valid_obj(s, s.sel("State.enter", src)))),
+        *[valid_obj(s, g) for g in gs],
+    )
+
+
+def state_transitions(s, st):
+    """(array, length) of the outgoing transitions of class-level state `st`."""
+    lst = s.sel("TransitionList.transitions", s.sel("State.transitions", st))
+    return s.sel("list.arr", lst), s.sel("list.len", lst)
+
+
+def wf_class(s):
+    """WF(cls): every mapped state is a valid object mapped from its own value; its transition
+    list holds pairwise distinct, well-formed transitions that start in it."""
+    v, j, j2 = z3.Const("v!wf", Int), z3.Const("j!wf", Int), z3.Const("j2!wf", Int)
+    st = smap_val(s, v)
+    arr, n = state_transitions(s, st)
+    return {
+        "wfc:mapped-states-valid": z3.ForAll([v], z3.Implies(smap_has(s, v), z3.And(
+            valid_obj(s, st), s.sel("State.value", st) == v, n >= 0,
+            valid_obj(s, s.sel("State.transitions", st)),
+            valid_obj(s, s.sel("TransitionList.transitions", s.sel("State.transitions", st)))))),
+        "wfc:transitions-wf": z3.ForAll([v, j], z3.Implies(
+            z3.And(smap_has(s, v), j >= 0, j < n),
+            z3.And(wf_transition(s, z3.Select(arr, j)), s.sel("Transition.source", z3.Select(arr, j)) == st))),
+        "wfc:transitions-distinct": z3.ForAll([v, j, j2], z3.Implies(
+            z3.And(smap_has(s, v), j >= 0, j < j2, j2 < n), z3.Select(arr, j) != z3.Select(arr, j2))),
+    }
